@@ -447,6 +447,9 @@ TIES = {
     'RangeElements': dict(props=['C11'], gen=['IsElements', 'StartsWithElements', 'EndsWithElements'],
                           theorems=['elem_loop', 'is_elements_tie', 'starts_with_elements_tie', 'ends_with_elements_tie'],
                           cxx='is_elements_checker, starts_with_elements_checker, ends_with_checker (matcher/range.hpp): iterator + lambda + pack fold'),
+    'ReturnPath': dict(props=['C08', 'C17'], gen=['ReturnHandlerCall', 'TraceReturnVoid', 'TraceReturnValue'],
+                       theorems=['return_path_tie', 'return_evaluated_once'],
+                       cxx='return_handler_t::call and the two trace_return<Ret> helpers (mock.hpp): the RETURN functor is evaluated once'),
     'Ring': dict(props=['C14'], gen=['RingUnlink', 'RingElemDtor', 'RingMoveAssign', 'RingPushFront', 'RingPushBack', 'RingBegin', 'RingEnd',
                                     'RingIterIncr', 'RingIsLinked', 'RingListDtor'],
                  theorems=['ring_unlink_tie', 'ring_elem_dtor_tie', 'ring_move_assign_tie', 'ring_push_front_tie', 'ring_push_back_tie',
